@@ -172,30 +172,71 @@ def r2(ctx):
     f = ctx.fn(f"{RETRO}.PairwisePlateGenerator._generate_plates")
     stores = [n for n in walk_own(f.node) if isinstance(n, ast.Assign) and isinstance(n.targets[0], ast.Subscript)
               and isinstance(n.targets[0].value, ast.Name) and "plate_names" in n.targets[0].value.id]
-    ctx.need(len(stores) >= 2, f"{f.site()}: plate-name stores not found")
-    combo_store = [n for n in stores if isinstance(n.value, ast.JoinedStr)]
-    ctx.need(len(combo_store) == 1, f"{f.site()}: combination plate label store not found")
-    cs = combo_store[0]
-    names, attrs = slice_names(f.node, cs.targets[0].slice)
-    has_sample = any(a.endswith(".sample_ids") or a.endswith(".sample_names") for a in attrs)
-    ctx.check("R2", f"{f.site()}::key-contains-sample", has_sample, "the mask naming a combination plate depends on the rows' sample ids",
-              "the grouping key of a generated plate no longer contains the sample: plates would mix samples")
-    # the key rows are compared in full (all columns equal) against each unique key
     env = single_defs(f.node)
     par = enclosing_map(f.node)
-    lp = par.get(cs)
-    ok = False
-    if isinstance(lp, ast.For) and isinstance(lp.iter, ast.Call) and call_name(lp.iter) == "enumerate":
-        uq = inline(lp.iter.args[0], env, depth=1)
-        m = inline(cs.targets[0].slice, {k: v for k, v in single_defs_loop(lp).items()})
-        key = U(uq.args[0]) if isinstance(uq, ast.Call) and call_name(uq) == "np.unique" and U(kwargs(uq).get("axis")) == "0" else None
-        ut = U(lp.target.elts[1])
-        ok = key is not None and U(m).replace(" ", "") in (f"({key}=={ut}).all(axis=1)", f"np.all({key}=={ut},axis=1)") \
-            and len([v for v in cs.value.values if isinstance(v, ast.FormattedValue)]) == 1 and U([v for v in cs.value.values if isinstance(v, ast.FormattedValue)][0].value) == U(lp.target.elts[0])
-    ctx.check("R2", f"{f.site()}::one-label-per-key", ok, "rows equal to a unique key in all columns get that key's index as label",
-              "plate labels are not assigned per unique (sample, group, group) key with a full-row comparison")
+    combo_store = [n for n in stores if isinstance(n.value, ast.JoinedStr)]
+    uqs = [c for c in calls(f.node) if call_name(c) == "np.unique" and U(kwargs(c).get("axis")) == "0" and c.args]
+    inverse = [c for c in uqs if U(kwargs(c).get("return_inverse")) == "True"]
+    if not combo_store and len(inverse) == 1:
+        # labels from the inverse of the unique keys:  _, inv = np.unique(KEY, axis=0, return_inverse=True); names = [f"..{i}" for i in inv]
+        uq = inverse[0]
+        asg = par.get(uq)
+        ctx.need(isinstance(asg, ast.Assign) and isinstance(asg.targets[0], ast.Tuple) and len(asg.targets[0].elts) == 2 and isinstance(asg.targets[0].elts[1], ast.Name)
+                 and not any(U(kwargs(uq).get(k)) == "True" for k in ("return_index", "return_counts")), f"{f.site()}: `_, inverse = np.unique(.., return_inverse=True)` not found")
+        inv = asg.targets[0].elts[1].id
+        key_e = inline(uq.args[0], env)
+        key_names, key_attrs = slice_names(f.node, uq.args[0])
+        has_sample = any(a.endswith(".sample_ids") or a.endswith(".sample_names") for a in key_attrs) or ".sample_ids" in U(key_e) or ".sample_names" in U(key_e)
+        ctx.check("R2", f"{f.site()}::key-contains-sample", has_sample, "the key naming a combination plate contains the rows' sample ids",
+                  "the grouping key of a generated plate no longer contains the sample: plates would mix samples")
+        comps = [n for n in walk_own(f.node) if isinstance(n, ast.ListComp) and len(n.generators) == 1 and U(n.generators[0].iter) == inv and not n.generators[0].ifs
+                 and isinstance(n.elt, ast.JoinedStr)]
+        ok = False
+        if len(comps) == 1:
+            fv = [v for v in comps[0].elt.values if isinstance(v, ast.FormattedValue)]
+            ok = len(fv) == 1 and U(fv[0].value) == U(comps[0].generators[0].target)
+            # .. and that list is what the combination screen is built with
+            nm = par.get(comps[0])
+            lst = nm.targets[0].id if isinstance(nm, ast.Assign) and isinstance(nm.targets[0], ast.Name) else None
+            ok = ok and any(call_name(c) == "Screen" and "plate_names" in kwargs(c) and (comps[0] in list(ast.walk(kwargs(c)["plate_names"])) or
+                                                                                     (lst and lst in names_in(kwargs(c)["plate_names"]))) for c in calls(f.node))
+        ctx.check("R2", f"{f.site()}::one-label-per-key", ok, "every row is labelled with the index of its unique key (inverse of np.unique over the key rows)",
+                  "plate labels are not the per-row index of the unique (sample, group, group) key")
+        single_store = stores
+    else:
+        ctx.need(len(stores) >= 2, f"{f.site()}: plate-name stores not found")
+        ctx.need(len(combo_store) == 1, f"{f.site()}: combination plate label store not found")
+        cs = combo_store[0]
+        names, attrs = slice_names(f.node, cs.targets[0].slice)
+        has_sample = any(a.endswith(".sample_ids") or a.endswith(".sample_names") for a in attrs)
+        ctx.check("R2", f"{f.site()}::key-contains-sample", has_sample, "the mask naming a combination plate depends on the rows' sample ids",
+                  "the grouping key of a generated plate no longer contains the sample: plates would mix samples")
+        # the key rows are compared in full (all columns equal) against each unique key
+        lp = par.get(cs)
+        ok = False
+        if isinstance(lp, ast.For) and isinstance(lp.iter, ast.Call) and call_name(lp.iter) == "enumerate":
+            uq = inline(lp.iter.args[0], env, depth=1)
+            m = inline(cs.targets[0].slice, {k: v for k, v in single_defs_loop(lp).items()})
+            key = U(uq.args[0]) if isinstance(uq, ast.Call) and call_name(uq) == "np.unique" and U(kwargs(uq).get("axis")) == "0" else None
+            ut = U(lp.target.elts[1])
+            ok = key is not None and U(m).replace(" ", "") in (f"({key}=={ut}).all(axis=1)", f"np.all({key}=={ut},axis=1)") \
+                and len([v for v in cs.value.values if isinstance(v, ast.FormattedValue)]) == 1 and U([v for v in cs.value.values if isinstance(v, ast.FormattedValue)][0].value) == U(lp.target.elts[0])
+        ctx.check("R2", f"{f.site()}::one-label-per-key", ok, "rows equal to a unique key in all columns get that key's index as label",
+                  "plate labels are not assigned per unique (sample, group, group) key with a full-row comparison")
+        single_store = [n for n in stores if n is not cs]
+    # the sample id is a column of its own in the key: a row-wise sort applied to the stacked (sample, group, group) rows mixes the sample id
+    # with the group ids, so rows of different samples can receive the same key
+    for uq in uqs:
+        k_ = inline(uq.args[0], env)
+        if isinstance(k_, ast.Call) and call_name(k_) in ("np.sort", "sorted") and U(kwargs(k_).get("axis", ast.Constant(value=-1))) in ("1", "-1") and k_.args:
+            inner = inline(k_.args[0], env)
+            if ".sample_ids" in U(inner) or ".sample_names" in U(inner):
+                ctx.bad("R2", f"{f.site()}::sample-column-kept-apart", f"the key rows `{U(k_)[:90]}` are sorted across the sample column: the sample id is permuted with the group ids, "
+                        f"so experiments of different samples can share a key and land on one plate")
+                break
+    else:
+        ctx.ok("R2", f"{f.site()}::sample-column-kept-apart", "no row-wise sort is applied across the sample column of the key")
     # single-agent rows: eligible names filtered by the same sample name as the rows assigned
-    single_store = [n for n in stores if n is not cs]
     ok = False
     for s in single_store:
         lp = par.get(s)
@@ -205,7 +246,7 @@ def r2(ctx):
             continue
         sv = U(lp.target)
         lenv = single_defs_loop(lp)
-        rows = U(s.targets[0].slice).replace(" ", "")
+        rows = U(inline(s.targets[0].slice, lenv)).replace(" ", "")
         val = inline(s.value, lenv)
         if isinstance(val, ast.Call) and attr_tail(val) == "choice":
             pop = inline(val.args[0], lenv)
